@@ -232,6 +232,9 @@ def addLine (sc : Script) (line : String) : Script :=
   | ["do", "qselfassign"] => { sc with metas := sc.metas ++ [(sc.dos.length, "self")], dos := sc.dos ++ [.emptyq] }
   | ["do", "dqnb"] => { sc with metas := sc.metas ++ [(sc.dos.length, "dqnb")], dos := sc.dos ++ [.emptyq] }
   | ["do", "dqne"] => { sc with metas := sc.metas ++ [(sc.dos.length, "dqne")], dos := sc.dos ++ [.emptyq] }
+  -- a copy of a live DisableQueueNotify is one more live object; a temporary assigned to a live one changes nothing
+  | ["do", "dqnc"] => { sc with metas := sc.metas ++ [(sc.dos.length, "dqnb")], dos := sc.dos ++ [.emptyq] }
+  | ["do", "dqna"] => { sc with metas := sc.metas ++ [(sc.dos.length, "self")], dos := sc.dos ++ [.emptyq] }
   | "do" :: rest =>
     match parseCmd rest with
     | some c => { sc with dos := sc.dos ++ [c], conds := sc.conds ++ condsOf [rest], counted := sc.counted ++ countedOf [rest],
